@@ -93,3 +93,32 @@ Definition loop_try_except : list instr :=
   mkI 24 op_POP_EXCEPT None None None (Some 25) (Some 23);
   mkI 25 op_RERAISE None None None None (Some 24)]%N.
 
+
+(* async def f(it):
+     async for i in it:
+       g(i)                                                                                    *)
+Definition async_for_simple : list instr :=
+ [mkI 0 op_RETURN_GENERATOR None None None (Some 1) None;
+  mkI 1 op_POP_TOP None None None (Some 2) (Some 0);
+  mkI 2 op_RESUME None None None (Some 3) (Some 1);
+  mkI 3 op_LOAD_FAST None None None (Some 4) (Some 2);
+  mkI 4 op_GET_AITER None None None (Some 5) (Some 3);
+  mkI 5 op_GET_ANEXT None None None (Some 6) (Some 4);
+  mkI 6 op_LOAD_CONST None None None (Some 7) (Some 5);
+  mkI 7 op_SEND (Some 11) None None (Some 8) (Some 6);
+  mkI 8 op_YIELD_VALUE None None None (Some 9) (Some 7);
+  mkI 9 op_RESUME None None None (Some 10) (Some 8);
+  mkI 10 op_JUMP_BACKWARD_NO_INTERRUPT (Some 7) None None (Some 11) (Some 9);
+  mkI 11 op_END_SEND None None None (Some 12) (Some 10);
+  mkI 12 op_STORE_FAST None None None (Some 13) (Some 11);
+  mkI 13 op_LOAD_GLOBAL None None None (Some 14) (Some 12);
+  mkI 14 op_LOAD_FAST None None None (Some 15) (Some 13);
+  mkI 15 op_CALL None None None (Some 16) (Some 14);
+  mkI 16 op_POP_TOP None None None (Some 17) (Some 15);
+  mkI 17 op_JUMP_BACKWARD (Some 5) None (Some 20) (Some 18) (Some 16);
+  mkI 18 op_CLEANUP_THROW None None None (Some 19) (Some 17);
+  mkI 19 op_JUMP_BACKWARD (Some 11) None None (Some 20) (Some 18);
+  mkI 20 op_END_ASYNC_FOR None None None (Some 21) (Some 19);
+  mkI 21 op_RETURN_CONST None None None (Some 22) (Some 20);
+  mkI 22 op_CALL_INTRINSIC_1 None None None (Some 23) (Some 21);
+  mkI 23 op_RERAISE None None None None (Some 22)]%N.
